@@ -122,6 +122,11 @@ def run_frames(res, repo, rules, table, findings_known, replay=None):
             if line not in res.known:
                 res.known.append(line)
             res.excluded_by_known.append(f.name)
+            key = (f.rule, f.module)
+            per[key] = [x for x in per.get(key, []) if x is not f]
+            if not per[key]:
+                res.obligations -= 1      # the whole (rule, module) obligation is excluded by listed findings, not proved
+                per[key] = None
             continue
         rdir = os.environ.get('PYVC_REPLAY_DIR') or 'replay'
         import hashlib
